@@ -232,6 +232,10 @@ func (c *FileCache) Stats() (int, int, int, int) {
 }
 
 func (c *FileCache) removeOldest() {
+	if c.ll == nil {
+		// Nothing was cached since the cache was created or emptied.
+		return
+	}
 	elem := c.ll.Back()
 	if elem != nil {
 		c.removeElement(elem)
